@@ -1718,7 +1718,8 @@ def get_articulations(e):
         "unstress",
         "soft-accent",
     )
-    return [a for a in articulations if e.find(a) is not None]
+    # in document order, so that writing the note again restores the input
+    return [c.tag for c in e if c.tag in articulations]
 
 
 def get_ornaments(e):
